@@ -413,4 +413,70 @@ example : filterSign tetF = 1 := by
   unfold filterSign
   rw [if_neg h1, if_pos h2]
 
+/-! ## 5. the rescaling of the simulation box maps into [1,2) (real arithmetic) -/
+
+/-- **rescale_in_range**: `x ↦ 1 + (x - min) / (ext (1 + 4ε))` maps `[min, min + ext]` into `[1, 2)`
+(per axis, with that axis' own extent) -/
+theorem rescale_in_range (mn ext ε x : ℝ) (hext : 0 < ext) (hε : 0 < ε) (h1 : mn ≤ x)
+    (h2 : x ≤ mn + ext) :
+    1 ≤ rescale1 x mn (ext * (1 + 4 * ε)) ∧ rescale1 x mn (ext * (1 + 4 * ε)) < 2 := by
+  have hd : 0 < ext * (1 + 4 * ε) := by positivity
+  have e1 : (1.0 : ℝ) = 1 := by norm_num
+  unfold rescale1
+  rw [e1]
+  constructor
+  · have : 0 ≤ (x - mn) / (ext * (1 + 4 * ε)) := div_nonneg (by linarith) hd.le
+    linarith
+  · have : (x - mn) / (ext * (1 + 4 * ε)) < 1 := by
+      rw [div_lt_one hd]; nlinarith
+    linarith
+
+/-- the rescaling is monotone -/
+theorem rescale_mono (mn ext x y : ℝ) (hext : 0 < ext) (h : x ≤ y) :
+    rescale1 x mn ext ≤ rescale1 y mn ext := by
+  unfold rescale1
+  have : (x - mn) / ext ≤ (y - mn) / ext := div_le_div_of_nonneg_right (by linarith) hext.le
+  linarith
+
+/-- with an extent that is too small by any factor the upper end leaves `[1,2)`: the extent of each
+axis has to be (at least) the one of that axis -/
+theorem rescale_needs_own_extent (mn ext ext' : ℝ) (hext' : 0 < ext') (h : ext' ≤ ext) :
+    2 ≤ rescale1 (mn + ext) mn ext' := by
+  unfold rescale1
+  have e1 : (1.0 : ℝ) = 1 := by norm_num
+  have : 1 ≤ (mn + ext - mn) / ext' := by rw [le_div_iff₀ hext']; linarith
+  rw [e1]; linarith
+
+/-- everything the Voronoi construction rescales (box, generators inside it, the vertices of the
+all-encompassing tetrahedron) lies, per axis, between the tetrahedron's minimum `anchor - side`
+and that minimum plus the axis' extent `9 max_side`; so with the padded extent of
+`paddedExtent` it is mapped into `[1,2)`.  Stated for the x axis of `boxTetra` / `paddedExtent`
+(y and z are the same statement with the components renamed). -/
+theorem rescale_box_in_range (anchor sides : V3 ℝ) (ε x : ℝ) (hε : 0 < ε)
+    (hx : 0 < sides.x) (h1 : anchor.x - sides.x ≤ x)
+    (h2 : x ≤ anchor.x - sides.x + 9.0 * amax (amax sides.x sides.y) sides.z) :
+    let t := boxTetra anchor sides
+    1 ≤ rescale1 x t.v0.x (paddedExtent (1 + 4 * ε) t).x ∧
+      rescale1 x t.v0.x (paddedExtent (1 + 4 * ε) t).x < 2 := by
+  intro t
+  have hm : sides.x ≤ amax (amax sides.x sides.y) sides.z := by
+    rw [amax_real, amax_real]; exact le_trans (le_max_left _ _) (le_max_left _ _)
+  have e9 : (9.0 : ℝ) = 9 := by norm_num
+  have hext : 0 < 9.0 * amax (amax sides.x sides.y) sides.z := by rw [e9]; linarith
+  have key := rescale_in_range (anchor.x - sides.x) (9.0 * amax (amax sides.x sides.y) sides.z) ε x
+    hext hε h1 h2
+  have e : (paddedExtent (1 + 4 * ε) t).x = 9.0 * amax (amax sides.x sides.y) sides.z * (1 + 4 * ε) := by
+    simp only [paddedExtent, t, boxTetra, e9]; ring
+  have e0 : t.v0.x = anchor.x - sides.x := rfl
+  rw [e, e0]; exact key
+
+/-- in particular the generators: every `x` inside the box -/
+example (anchor sides : V3 ℝ) (hx : 0 < sides.x) (x : ℝ)
+    (h1 : anchor.x ≤ x) (h2 : x ≤ anchor.x + sides.x) :
+    anchor.x - sides.x ≤ x ∧ x ≤ anchor.x - sides.x + 9.0 * amax (amax sides.x sides.y) sides.z := by
+  have hm : sides.x ≤ amax (amax sides.x sides.y) sides.z := by
+    rw [amax_real, amax_real]; exact le_trans (le_max_left _ _) (le_max_left _ _)
+  have e9 : (9.0 : ℝ) = 9 := by norm_num
+  rw [e9]; constructor <;> linarith
+
 end CMacVerif.Predicates
